@@ -48,6 +48,12 @@ Corpus == Leaves \cup Unsized \cup D1 \cup D2 \cup D3 \cup UNION {Bin(x, y) : x 
           \cup {Tup(ms) : ms \in [1..3 -> {E0("u8"), E1("PhantomData", E0("u8")), E1("Box", E1("PhantomData", Unit))}]}
           \cup {Tup(ms) : ms \in [1..4 -> {E0("u16"), E1("PhantomData", E0("String"))}]}
           \cup {Tup(<<E1("PhantomData", E0("u8"))>>), Tup(<<E1("Box", E1("PhantomData", E0("u8"))), E0("u8")>>), E1("Option", E1("Rc", E1("PhantomData", Unit)))}
+          \* markers between members of DIFFERENT widths (an erasure that reorders the survivors shows in the decoded leaves)
+          \cup {Tup(<<E0("u8"), E1("PhantomData", E0("bool")), E0("u16"), E0("u32")>>),
+                Tup(<<E1("PhantomData", Unit), E0("bool"), E0("u64"), E0("String"), E1("PhantomData", E0("u8")), E0("u16")>>),
+                Tup(<<E0("u8"), E1("PhantomData", E0("u8")), E1("Box", E1("PhantomData", Unit)), E0("u16"), E0("u32"), E0("u64")>>)}
+          \* array lengths around one-byte / two-byte boundaries (the length is a u32 of the description, never on the wire)
+          \cup {ArrE(n, E0("u8")) : n \in {63, 64, 255, 256, 1000}} \cup {ArrE(257, E0("bool")), E1("Vec", ArrE(64, E0("u16")))}
 
 (* which expressions are legal Rust types with a TypeInfo impl *)
 RECURSIVE Has(_, _)
